@@ -260,7 +260,8 @@ fn fixture(pool_len: usize) -> Fixture {
         let provider = HProvider { params: chan.make_channel_parameters() };
         chans.push(Chan { id, funding_tx, funding_outpoint, provider });
     }
-    let oracles = vec![oracle(0x21), oracle(0x22), oracle(0x23), oracle(0x24)];
+    // 0..=4 may be trusted by a case, 5..=7 never are
+    let oracles = (0..8u8).map(|i| oracle(0x21 + i)).collect();
     let genesis = genesis_block(Network::Regtest);
     let mut pool = vec![(genesis.clone(), FilterHeader::all_zeros())];
     for h in 1..pool_len {
@@ -593,6 +594,8 @@ enum Flavour {
     OtherBits(u8),
     ProofOtherBlock,
     ProofMissingSpend,
+    /// fewer distinct trusted oracles than the quorum, but as many attestations as the quorum
+    RepeatedAttestation,
     AttestWrongPrevFilter,
     AttestWrongHeight,
     BadSignature,
@@ -607,6 +610,13 @@ enum Flavour {
     // streaming defects
     StreamIncomplete,
     StreamOtherBlock,
+}
+
+#[derive(Clone, Copy, PartialEq, Debug)]
+enum Attest {
+    Quorum,
+    RepeatedBelowQuorum,
+    Random,
 }
 
 struct Built {
@@ -682,23 +692,62 @@ impl Case {
         (txs, changes)
     }
 
-    fn attesters_for(&self, fx: &Fixture, rng: &mut Rng, majority: bool) -> Vec<usize> {
-        if majority {
-            // every trusted oracle attests (plus sometimes an untrusted one)
-            let mut v = self.trusted.clone();
-            if v.is_empty() || rng.chance(1, 4) {
-                v.push(3);
+    /// who signs the attestations of a proof (indices into the fixture's oracles, in order,
+    /// repeats allowed: txoo verifies every attestation by itself and accepts duplicates)
+    fn attesters_for(&self, fx: &Fixture, rng: &mut Rng, mode: Attest) -> Vec<usize> {
+        let mut distinct_trusted = self.trusted.clone();
+        distinct_trusted.sort();
+        distinct_trusted.dedup();
+        let quorum = (self.trusted.len() + 1) / 2; // in entries of the trusted list
+        let untrusted = |rng: &mut Rng| 5 + rng.below(3) as usize;
+        let mut v: Vec<usize> = vec![];
+        match mode {
+            Attest::Quorum => {
+                // all trusted oracles, or just enough of them
+                let mut pool = distinct_trusted.clone();
+                if rng.chance(1, 2) && self.trusted.len() == distinct_trusted.len() {
+                    while pool.len() > quorum.max(1) {
+                        let i = rng.below(pool.len() as u64) as usize;
+                        pool.remove(i);
+                    }
+                }
+                v = pool;
+                if v.is_empty() || rng.chance(1, 4) {
+                    v.push(untrusted(rng));
+                }
+                if rng.chance(1, 5) {
+                    let again = v[rng.below(v.len() as u64) as usize];
+                    v.push(again);
+                }
             }
-            v.sort();
-            v.dedup();
-            v
-        } else {
-            let n = 1 + rng.below(3) as usize;
-            let mut v: Vec<usize> = (0..n).map(|_| rng.below(fx.oracles.len() as u64) as usize).collect();
-            v.sort();
-            v.dedup();
-            v
+            Attest::RepeatedBelowQuorum => {
+                // one distinct trusted oracle fewer than the quorum, the attestation of one of them
+                // (or of an untrusted oracle) repeated until the *number of attestations* reaches it
+                let mut pool = distinct_trusted.clone();
+                while pool.len() + 1 > quorum && !pool.is_empty() {
+                    let i = rng.below(pool.len() as u64) as usize;
+                    pool.remove(i);
+                }
+                v = pool;
+                let filler = if v.is_empty() { untrusted(rng) } else { v[rng.below(v.len() as u64) as usize] };
+                while v.len() < quorum.max(2) + rng.below(2) as usize {
+                    v.push(filler);
+                }
+                if rng.chance(1, 3) {
+                    v.push(untrusted(rng));
+                }
+            }
+            Attest::Random => {
+                let n = 1 + rng.below(5) as usize;
+                v = (0..n).map(|_| rng.below(fx.oracles.len() as u64) as usize).collect();
+            }
         }
+        // the order of the attestations must not matter
+        for i in (1..v.len()).rev() {
+            let j = rng.below(i as u64 + 1) as usize;
+            v.swap(i, j);
+        }
+        v
     }
 
     /// build the add_block request of the given flavour on top of the current tip
@@ -738,8 +787,12 @@ impl Case {
             Flavour::ValidStreamed | Flavour::ExternalWithoutStream | Flavour::StreamIncomplete | Flavour::StreamOtherBlock => ProofType::ExternalBlock(),
             _ => compact_proof(&block, &all_txids, &[]),
         };
-        let majority = !matches!(fl, Flavour::Valid | Flavour::ValidStreamed) && rng.chance(1, 3);
-        let who = self.attesters_for(fx, rng, !majority || matches!(fl, Flavour::Valid | Flavour::ValidStreamed));
+        let mode = match fl {
+            Flavour::Valid | Flavour::ValidStreamed => Attest::Quorum,
+            Flavour::RepeatedAttestation => Attest::RepeatedBelowQuorum,
+            _ => *rng.pick(&[Attest::Quorum, Attest::Quorum, Attest::Random, Attest::RepeatedBelowQuorum]),
+        };
+        let who = self.attesters_for(fx, rng, mode);
         let att_fh = match fl {
             Flavour::AttestWrongPrevFilter => filter_header_of(&block, &FilterHeader::from_byte_array([7u8; 32])),
             _ => fh,
@@ -791,9 +844,12 @@ impl Case {
             Flavour::StreamedRemoval | Flavour::ExternalWithoutStream => ProofType::ExternalBlock(),
             _ => compact_proof(&tip_block, &all_txids, &[]),
         };
-        let valid = matches!(fl, Flavour::Valid | Flavour::StreamedRemoval);
-        let full = valid || rng.chance(2, 3);
-        let who = self.attesters_for(fx, rng, full);
+        let mode = match fl {
+            Flavour::Valid | Flavour::StreamedRemoval => Attest::Quorum,
+            Flavour::RepeatedAttestation => Attest::RepeatedBelowQuorum,
+            _ => *rng.pick(&[Attest::Quorum, Attest::Quorum, Attest::Random, Attest::RepeatedBelowQuorum]),
+        };
+        let who = self.attesters_for(fx, rng, mode);
         let att_fh = if fl == Flavour::AttestWrongPrevFilter { filter_header_of(&tip_block, &FilterHeader::from_byte_array([7u8; 32])) } else { fh };
         let att_height = if fl == Flavour::AttestWrongHeight { height.wrapping_sub(1) } else { height };
         let mut attestations = vec![];
@@ -911,7 +967,9 @@ impl Case {
         let fwd = self.forward_watches();
         let pok = b.proof.verify(exp_height, &b.header, ext, &tip.1, &fwd, &secp).is_ok();
         let trusted = self.tr().trusted_oracle_pubkeys.clone();
-        let matching = trusted.iter().filter(|k| b.proof.attestations.iter().any(|(a, _)| a == *k)).count();
+        // independent of how often an oracle's attestation is repeated: the set of attesting keys
+        let attesting: std::collections::BTreeSet<PublicKey> = b.proof.attestations.iter().map(|(a, _)| *a).collect();
+        let matching = trusted.iter().filter(|k| attesting.contains(*k)).count();
         let half = 2 * matching >= trusted.len();
         let equal_bits_rule = if exp_height % 2016 == 0 {
             retarget_allowed(self.network, tip.0.bits, b.header.bits)
@@ -919,7 +977,7 @@ impl Case {
             self.network == Network::Testnet || b.header.bits == tip.0.bits
         };
         let valid = link && pow && equal_bits_rule && (bypass || self.warn || (pok && half));
-        let why = format!("link={} pow={} difficulty_rule={} bypass={} warn={} proof_ok={} trusted_attesting={}/{}", link, pow, equal_bits_rule, bypass, self.warn, pok, matching, trusted.len());
+        let why = format!("link={} pow={} difficulty_rule={} bypass={} warn={} proof_ok={} distinct_trusted_attesting={}/{}", link, pow, equal_bits_rule, bypass, self.warn, pok, matching, trusted.len());
         // "correct in every respect": same bits (which also passes the retarget window on regtest)
         let bits_surely_ok = if exp_height % 2016 == 0 { self.network == Network::Regtest && b.header.bits == tip.0.bits } else { self.network == Network::Testnet || b.header.bits == tip.0.bits };
         let stream_ok = match (&b.proof.proof, &self.stream) {
@@ -972,7 +1030,8 @@ impl Case {
         let rev = self.reverse_watches();
         let pok = proof.verify(exp_height, &tip.0, ext, &prev.1, &rev, &secp).is_ok();
         let trusted = self.tr().trusted_oracle_pubkeys.clone();
-        let matching = trusted.iter().filter(|k| proof.attestations.iter().any(|(a, _)| a == *k)).count();
+        let attesting: std::collections::BTreeSet<PublicKey> = proof.attestations.iter().map(|(a, _)| *a).collect();
+        let matching = trusted.iter().filter(|k| attesting.contains(*k)).count();
         let half = 2 * matching >= trusted.len();
         let remembered = self.tr().headers.front().map(|h| h.0 == prev.0 && h.1 == prev.1).unwrap_or(self.allow_deep);
         let difficulty = if exp_height % 2016 == 0 {
@@ -981,7 +1040,7 @@ impl Case {
             self.network == Network::Testnet || tip.0.bits == prev.0.bits
         };
         let valid = link && pow && difficulty && remembered && (bypass || self.warn || (pok && half));
-        let why = format!("link={} pow={} difficulty_rule={} matches_remembered_header={} bypass={} warn={} proof_ok={} trusted_attesting={}/{}", link, pow, difficulty, remembered, bypass, self.warn, pok, matching, trusted.len());
+        let why = format!("link={} pow={} difficulty_rule={} matches_remembered_header={} bypass={} warn={} proof_ok={} distinct_trusted_attesting={}/{}", link, pow, difficulty, remembered, bypass, self.warn, pok, matching, trusted.len());
 
         let bits_surely_ok = if exp_height % 2016 == 0 { self.network == Network::Regtest && tip.0.bits == prev.0.bits } else { self.network == Network::Testnet || tip.0.bits == prev.0.bits };
         let stream_ok = match (&proof.proof, &self.stream) {
@@ -1208,8 +1267,8 @@ fn gen_start(rng: &mut Rng, max_window: usize) -> Start {
         9 => 2014,
         _ => window as u32 + rng.below(50) as u32,
     };
-    let ntrusted = *rng.pick(&[0usize, 1, 1, 2, 2, 3, 3]);
-    let mut trusted: Vec<usize> = (0..3).collect();
+    let ntrusted = *rng.pick(&[0usize, 1, 1, 2, 2, 3, 3, 3, 4, 4, 5, 5]);
+    let mut trusted: Vec<usize> = (0..5).collect();
     while trusted.len() > ntrusted {
         let i = rng.below(trusted.len() as u64) as usize;
         trusted.remove(i);
@@ -1295,6 +1354,7 @@ fn run_case(fx: &Fixture, rng: &mut Rng, id: usize, stats: &mut BTreeMap<String,
                     2 => Flavour::WrongSuppliedFilter,
                     3 | 4 => Flavour::ProofOtherBlock,
                     5 => Flavour::ProofMissingSpend,
+                    13 | 14 => Flavour::RepeatedAttestation,
                     6 => Flavour::AttestWrongPrevFilter,
                     7 => Flavour::AttestWrongHeight,
                     8 => Flavour::BadSignature,
@@ -1338,6 +1398,7 @@ fn run_case(fx: &Fixture, rng: &mut Rng, id: usize, stats: &mut BTreeMap<String,
                     4 | 5 | 6 => Flavour::OtherBits(rng.below(9) as u8),
                     7 | 8 => Flavour::ProofOtherBlock,
                     9 | 10 => Flavour::ProofMissingSpend,
+                    26 | 27 | 28 => Flavour::RepeatedAttestation,
                     11 => Flavour::AttestWrongPrevFilter,
                     12 => Flavour::AttestWrongHeight,
                     13 => Flavour::BadSignature,
@@ -1530,7 +1591,7 @@ fn scripted(_args: &Args) {
         let (b, ch) = case.build_add(&fx, &mut rng, Flavour::ValidStreamed);
         // spoil the attestation: the stream is fine, the AddBlock is refused
         let mut bad = Built { header: b.header, block: b.block.clone(), proof: b.proof.clone(), fh: b.fh };
-        bad.proof.attestations = vec![attest(&fx.oracles[3], &fx.oracles[3].pubkey, b.header.block_hash(), case.tr().height + 1, b.fh)];
+        bad.proof.attestations = vec![attest(&fx.oracles[5], &fx.oracles[5].pubkey, b.header.block_hash(), case.tr().height + 1, b.fh)];
         let bytes = serialize(&b.block);
         outs.push(case.do_chunk(&fx, &b.block, b.block.block_hash(), 0, &bytes, true, true, true, "chunk(block A, whole)".into()));
         outs.push(case.do_add(&fx, &bad, ch, "add[streamed, attested only by an untrusted oracle]".into()));
@@ -1558,6 +1619,47 @@ fn scripted(_args: &Args) {
             "later_request_violations": if !last_ok { vec![json!({"after_a_refused_streamed_block_the_next_streamed_block": outs.last().unwrap().what, "result": code_name(outs.last().unwrap().code)})] } else { vec![] },
             "class": "streamed-reject-stale-decode",
             "invalid_accepted": [], "coq": coq}));
+    }
+    // (2b) three trusted oracles, the attestation of ONE of them repeated two and three times:
+    // as many attestations with a trusted key as the quorum asks for, but one oracle only
+    {
+        let st = Start { network: Network::Regtest, trusted: vec![0, 1, 2], warn: false, allow_deep: false, window: 2, height: 11,
+                         tip_bits_kind: None, tip_fh_zero: false, prev_fh_zero: false, listeners: vec![true, false] };
+        let mut case = new_case(&fx, &st, 7005);
+        let coq_cfg = case.coq_cfg(&fx);
+        let coq_init = case.coq_state();
+        let mut outs = vec![];
+        for (reps, extra) in [(2usize, None), (3usize, Some(6usize))] {
+            let (b, ch) = case.build_add(&fx, &mut rng, Flavour::Valid);
+            let mut bad = Built { header: b.header, block: b.block.clone(), proof: b.proof.clone(), fh: b.fh };
+            let one = attest(&fx.oracles[1], &fx.oracles[1].pubkey, b.header.block_hash(), case.tr().height + 1, b.fh);
+            bad.proof.attestations = vec![one; reps];
+            if let Some(u) = extra {
+                bad.proof.attestations.push(attest(&fx.oracles[u], &fx.oracles[u].pubkey, b.header.block_hash(), case.tr().height + 1, b.fh));
+            }
+            outs.push(case.do_add(&fx, &bad, ch, format!("add[oracle 1 of 3 trusted attests {} times{}]", reps, if extra.is_some() { ", plus an untrusted oracle" } else { "" })));
+        }
+        let (b, ch) = case.build_add(&fx, &mut rng, Flavour::Valid);
+        outs.push(case.do_add(&fx, &b, ch, "add[Valid]".into()));
+        // and the same on the way down
+        let (prev, good, tip_block) = case.build_remove(&fx, &mut rng, Flavour::Valid).unwrap();
+        let mut badp = good.clone();
+        let one = badp.attestations.iter().find(|(k, _)| case.tr().trusted_oracle_pubkeys.contains(k)).cloned().unwrap();
+        badp.attestations = vec![one.clone(), one];
+        outs.push(case.do_remove(&fx, &prev, &badp, &tip_block, "remove[one trusted oracle attests twice]".into()));
+        outs.push(case.do_remove(&fx, &prev, &good, &tip_block, "remove[Valid]".into()));
+        let coq = format!("({}, {}, {}, {})", coq_cfg, coq_init,
+            coq_list(&outs.iter().map(|o| o.coq_req.clone()).collect::<Vec<_>>()),
+            coq_list(&outs.iter().map(|o| o.coq_obs.clone()).collect::<Vec<_>>()));
+        let expected = [6u64, 6, 0, 6, 0];
+        let later: Vec<Value> = outs.iter().zip(expected.iter()).filter(|(o, e)| **e == 0 && o.code != 0)
+            .map(|(o, _)| json!({"after_a_refused_request_the_correct_request": o.what, "result": code_name(o.code)})).collect();
+        emit("CASE", json!({"id": "repeated-attestation-of-one-trusted-oracle", "kind": "scripted",
+            "ops": outs.iter().map(|o| json!([o.what, code_name(o.code)])).collect::<Vec<_>>(),
+            "atomicity_violations": outs.iter().filter_map(|o| o.atomic_violation.clone()).collect::<Vec<_>>(),
+            "later_request_violations": later,
+            "invalid_accepted": outs.iter().filter_map(|o| o.invalid_accepted.clone()).collect::<Vec<_>>(),
+            "coq": coq}));
     }
     // (3) observation, not a C13 violation: a correct streamed removal is refused, because
     // remove_block compares the streamed block's hash with the hash of the PREVIOUS header
